@@ -2,6 +2,7 @@ package harness
 
 import (
 	"context"
+	"errors"
 	"fmt"
 	"hash/fnv"
 	"os"
@@ -403,9 +404,25 @@ func sortedKeys(m map[int64]struct{}) []int64 {
 	return out
 }
 
+// errBackoffStop is what the harness's backoff returns when it interrupts a multi helper.
+var errBackoffStop = errors.New("verifsim: backoff asked to stop")
+
+// backoff kinds: 0 none, 1 DeleteMultiWithWait (simulated timer), 2.. fails at its (kind-1)-th
+// call: the helper stops half-way and must report exactly what it removed so far.
 func (r *Run) backoff(kind int64) klevdb.DeleteMultiBackoff {
 	if kind == 1 {
 		return klevdb.DeleteMultiWithWait(time.Millisecond)
+	}
+	if kind >= 2 {
+		calls := int64(0)
+		return func(context.Context) error {
+			calls++
+			if calls >= kind-1 {
+				r.probe("multi_helper_interrupted")
+				return errBackoffStop
+			}
+			return nil
+		}
 	}
 	return func(context.Context) error { return nil }
 }
@@ -535,6 +552,9 @@ func (r *Run) execOp(op *Op) {
 		}
 		r.applyDeleted(kind, req, fromKs(got), gotOffs, size, err)
 		if err != nil && !r.stopped() {
+			if errors.Is(err, errBackoffStop) {
+				return // interrupted by the harness: the partial report has been applied and checked
+			}
 			if len(req) > 0 && (req[0] < 0 || !r.M.IsLive(req[0])) && classify(err) != EOther {
 				return
 			}
@@ -549,7 +569,7 @@ func (r *Run) execOp(op *Op) {
 			return klevdb.Compact(ctx, r.L, time.Duration(op.A)*time.Microsecond, r.backoff(op.B))
 		})
 		r.logf("compact age=%dus err=%v", op.A, errStr(err))
-		if err != nil {
+		if err != nil && !errors.Is(err, errBackoffStop) {
 			r.unexpected("Compact", err)
 			return
 		}
